@@ -92,8 +92,8 @@ PROP = dict(
                "Unicode classes \\pL/\\pN, strings.ToLower/TrimSpace and sort.Strings are parameters or ASCII approximations valid "
                "on the alphabet fed; validators/authenticators that rewrite tags are a parameter (`rewrite`).",
     technique="Lean 4 proof (invariants over the tokenizer fold, sorted-list reasoning) + exhaustive differential correspondence against model and grammar spec",
-    modules=["TinodeVerif.Props.C19"],
-    theorems=[T + n for n in ["parse_eq_grammar", "malformed_rejected", "tags_normal", "restricted_ns_immutable"]],
+    modules=["TinodeVerif.Props.C19", "TinodeVerif.Props.C19t"],
+    theorems=[T + n for n in ["parse_eq_grammar", "malformed_rejected", "tags_normal", "restricted_ns_immutable", "settags_nonowner_refused", "gettags_nonowner_refused", "settags_immutable_refused", "settags_needs_attachment", "new_topic_immutable_refused"]],
     streams=[dict(name="search", pkg="main", gen=gen_search, classify=classify), world.world_stream("C19")],
     seeds=dict(quick=1, thorough=2),
     exhaustive=dict(quick=True, thorough=True),
